@@ -10,3 +10,6 @@ pub(crate) use send_blocks_proof::{verify_extra_hash, SendBlocksProofProcess};
 pub(crate) use send_last_state::SendLastStateProcess;
 pub(crate) use send_last_state_proof::{verify_mmr_proof, SendLastStateProofProcess};
 pub(crate) use send_transactions_proof::SendTransactionsProofProcess;
+
+#[cfg(feature = "verif")]
+pub(crate) use send_last_state_proof::{verify_tau, verify_total_difficulty};
